@@ -347,7 +347,7 @@ var tokKinds = []string{"g", "e", "m", "c:44:34"}
 // runes with a special role somewhere: ends of planes and of the UTF-8 lengths, non-characters, the replacement character,
 // Unicode spaces and line separators, case-folding oddities
 var specialRunes = []rune{0xffff, 0xfffe, 0x10000, 0xd7ff, 0xe000, 0x131, 0x17f, 0, 0x7f, 0xa0, 0xfeff, 0x100, 0xff, 0x212a, 0x2028,
-	0xfffd, 0x85, 0x3000, 0x1680, 0x10ffff, 0x0b, 0x0c, 0x2029, 0x202f}
+	0xfffd, 0x85, 0x3000, 0x1680, 0x10ffff, 0x0b, 0x0c, 0x2029, 0x202f, 0x1000a, 0x2000d, 0x10000a, 0x10a, 0x20d}
 
 func randInput(c *Ctx, maxLen int) []rune {
 	n := c.Rng.Intn(maxLen + 1)
